@@ -43,8 +43,7 @@ def _mk_root(sanitize, kids_fn):
         def children(self):
             return self._kids
 
-        def get_info(self):
-            return None
+    Root.get_info = symx.instrument(Traversable.get_info, {})            # the real listing: the names `ls` prints
     Root.parse_path = symx.instrument(Traversable.parse_path, {"re": symx.ReShim()})
     Root._sanitize_string = symx.instrument(sanitize, {})
     return Root
@@ -81,9 +80,12 @@ def p_addr(variant="generic", N=2, L=3, twin=False, timeout=900, exclude=(), onl
     def body():
         elems = [Sample(name=raws[e], _path=["d", "x"]) for e in range(N)]
         img.make_safe_names_routine(elems)
-        printed = [symx.SymStr.lift(e.safe_name) for e in elems]
-        holder["printed"] = printed
         root = Root("", elems)
+        rows = root.get_info().rows                              # what `ls` of the directory shows: (name, type) per child
+        printed = [symx.SymStr.lift(r[0]) for r in rows]
+        if len(printed) != N:
+            return z3.BoolVal(True)
+        holder["printed"] = printed
         t = 0
         for i in range(N):
             if symx.SymBool(target == i):
@@ -111,8 +113,9 @@ def p_addr(variant="generic", N=2, L=3, twin=False, timeout=900, exclude=(), onl
         el = [Sample(name=r, _path=["d", "x"]) for r in cex["raw_names"]]
         Image.make_safe_names_routine(real, el)
         holder_root = _RealRoot(cex["variant"], el)
-        name = el[cex["target"]].safe_name
-        cex["printed"] = [e.safe_name for e in el]
+        rows = Traversable.get_info(holder_root).rows
+        name = rows[cex["target"]][0]
+        cex["printed"] = [r[0] for r in rows]
         if name.strip() == "":
             return False
         b = cex["blanks"]
@@ -138,8 +141,6 @@ class _RealDir(Traversable):
     def children(self):
         return self._kids
 
-    def get_info(self):
-        return None
 
 
 def _RealRoot(variant, kids):
